@@ -669,7 +669,8 @@ package stree
 //@
 // inorderAfter: what is yielded are stored keys of the subtree, not smaller than key, in strictly ascending order, the
 // first of them being the least such key of the whole subtree (and when nothing is yielded and the walk was not
-// stopped, there is none). That *every* key >= key is yielded (no gaps further on) is not stated: bounded stand-in.
+// stopped, there is none), no key of the subtree lies strictly between two consecutive ones, and when the walk was not
+// stopped none lies beyond the last: exactly the keys not below key, in order.
 //@ func (*node).inorderAfter
 //@   role compare ord
 //@   role f yield
@@ -678,6 +679,8 @@ package stree
 //@   ensures  [C01,C04] ascending: forall a int, b int :: {callarg(f, a), callarg(f, b)} old(ncalls(f)) <= a && a < b && b < ncalls(f) ==> rank(compare, callarg(f, a)) < rank(compare, callarg(f, b))
 //@   ensures  [C01,C04] first: ncalls(f) > old(ncalls(f)) ==> forall k int :: {k in n.keys} inK(n, k) && k >= rank(compare, key) ==> k >= rank(compare, callarg(f, old(ncalls(f))))
 //@   ensures  [C01,C04] none: result && ncalls(f) == old(ncalls(f)) ==> forall k int :: {k in n.keys} inK(n, k) ==> k < rank(compare, key)
+//@   ensures  [C01,C04] nogap: forall a int, b int, k int :: {callarg(f, a), callarg(f, b), k in n.keys} old(ncalls(f)) <= a && b == a + 1 && b < ncalls(f) && inK(n, k) ==> !(rank(compare, callarg(f, a)) < k && k < rank(compare, callarg(f, b)))
+//@   ensures  [C01,C04] last: result ==> forall k int :: {k in n.keys} inK(n, k) && k >= rank(compare, key) ==> ncalls(f) > old(ncalls(f)) && k <= rank(compare, callarg(f, ncalls(f) - 1))
 //@   ensures  [C01,C04] count: ncalls(f) >= old(ncalls(f))
 //@   ensures  [C01,C04] went: forall j int :: {callret(f, j)} old(ncalls(f)) <= j && j < ncalls(f) - 1 ==> callret(f, j)
 //@   ensures  [C01,C04] stopped: !result ==> ncalls(f) > old(ncalls(f)) && !callret(f, ncalls(f) - 1)
@@ -691,6 +694,8 @@ package stree
 //@   loop 1: invariant [C01,C04] members: forall j int :: {callarg(f, j)} old(ncalls(f)) <= j && j < ncalls(f) ==> inK(n, rank(compare, callarg(f, j))) && rank(compare, callarg(f, j)) >= rank(compare, key) && callarg(f, j) == n.rep[rank(compare, callarg(f, j))]
 //@   loop 1: invariant [C01,C04] ascending: forall a int, b int :: {callarg(f, a), callarg(f, b)} old(ncalls(f)) <= a && a < b && b < ncalls(f) ==> rank(compare, callarg(f, a)) < rank(compare, callarg(f, b))
 //@   loop 1: invariant [C01,C04] below: i + 1 < len(path) ==> forall j int :: {callarg(f, j)} old(ncalls(f)) <= j && j < ncalls(f) ==> rank(compare, callarg(f, j)) in path[i + 1].keys
+//@   loop 1: invariant [C01,C04] nogap: forall a int, b int, k int :: {callarg(f, a), callarg(f, b), k in n.keys} old(ncalls(f)) <= a && b == a + 1 && b < ncalls(f) && inK(n, k) ==> !(rank(compare, callarg(f, a)) < k && k < rank(compare, callarg(f, b)))
+//@   loop 1: invariant [C01,C04] covered: i + 1 < len(path) ==> forall k int :: {k in path[i + 1].keys} k in path[i + 1].keys && k >= rank(compare, key) ==> ncalls(f) > old(ncalls(f)) && k <= rank(compare, callarg(f, ncalls(f) - 1))
 //@   loop 1: invariant [C01,C04] nothing: ncalls(f) == old(ncalls(f)) && i + 1 < len(path) ==> forall k int :: {k in path[i + 1].keys} k in path[i + 1].keys ==> k < rank(compare, key)
 //@   loop 1: invariant [C01,C04] first: ncalls(f) > old(ncalls(f)) ==> forall k int :: {k in n.keys} inK(n, k) && k >= rank(compare, key) ==> k >= rank(compare, callarg(f, old(ncalls(f))))
 //@   at after "cur := path[i]": assert [C01,C04] cur != nil && cur in n.desc
